@@ -92,6 +92,20 @@ add(
     "DESIGN.md section 4, C08",
 )
 
+add(
+    "C10", "exploration",
+    "property-based testing (Hypothesis): reference pipeline model + metamorphic composition of single-stage runs, "
+    "options in random command-line permutations",
+    "Random subsets of the modifying options are written in a random permutation; the one-shot output must equal (a) a "
+    "reference pipeline that applies executable definitions of every stage in the documented order and (b) a chain of "
+    "cutadapt runs with one stage each (paired data: two independent single-end chains, which also decides the "
+    "lower-case/upper-case/shared routing clause). Non-triviality is measured: the case must be able to see a swap of "
+    "two adjacent stages.",
+    "Held on everything explored. The reference model searches single adapters with the real match_to (decided by "
+    "C01/C02/C07); --no-index is used.",
+    "DESIGN.md section 4, C10",
+)
+
 NOT_APPLICABLE = []  # filled below for every property without a check
 
 ALL_IDS = [f"C{i:02d}" for i in range(1, 21)]
